@@ -1,5 +1,5 @@
 """Which units exist, and what each claimed property covers / does not cover (copied into evidence)."""
-UNITS = ['budget', 'scalars', 'events', 'location', 'live', 'reader', 'snippet']
+UNITS = ['budget', 'scalars', 'events', 'location', 'live', 'reader', 'snippet', 'quoting']
 
 GLOBAL_ASSUMPTIONS = [
     'Verus 0.2026.09.13 and its bundled Z3 are sound; the extractor rewrite rules R0..R17 preserve meaning (DESIGN.md 3.2)',
@@ -120,6 +120,23 @@ PROPS = {
         not_covered=['arity / field-name checks of serde-generated visitors; deserialize_option / deserialize_unit / deserialize_enum bodies (generic over Visitor); the inline copies of the leftover check in src/lib.rs entry points; the reference interpreter comparison'],
         assumptions=['scalar_is_nullish is used as an uninterpreted function of text and style'],
     ),
+    'C12': dict(
+        covered=[
+            'write_quoted: for every string the emitted text is `"` + the YAML 1.2 escape of every character + `"` (named escapes, \\xHH for the remaining C0/C1/DEL, \\uFEFF for the BOM, \\N \\L \\P for NEL/LS/PS); no character that needs escaping is ever written raw (lemma_escape_is_safe)',
+            'write_single_quoted: `\'` + the text with every single quote doubled + `\'`',
+        ],
+        not_covered=['plain-safety predicates (is_plain_safe, is_plain_value_safe, is_numeric_looking regex), block scalar selection / indentation and chomping indicators (serialize_str, first_line_leading_spaces, write_folded_block), float text (zmij), the reader side of the round trip',
+                     'observed on the pinned tree and NOT detected by any contract here: strings with a trailing blank and block-scalar indentation indicators in nested positions do not round-trip (reported by an independent reviewer while seeding C12)'],
+        assumptions=['fmt::Write is an append-only sink (contracts/quoting.shim.rs); write! with {:02X}/{:04X} prints upper-case hex; char::is_control is category Cc'],
+    ),
+    'C20': dict(
+        covered=[
+            'write_end_of_scalar: a staged inline comment is written only outside flow context, as ` # ` + text + newline, and is consumed',
+            'the statement that stages a Commented comment (lifted from TupleSer::serialize_field): the staged text contains neither \\n nor \\r',
+        ],
+        not_covered=['every other wrapper and option (flow sequences / mappings, literal / folded strings, space-after, option vectors): needs the emitter state machine and a YAML reader semantics (as C13)'],
+        assumptions=['String::replace shim (contracts/quoting.shim.rs)'],
+    ),
     'C08': dict(covered=['budget counters bound the number of observed events/nodes (BudgetEnforcer::observe accept_only_within_limits)'],
                 not_covered=['heap bytes (no allocator model)'], assumptions=[]),
 }
@@ -140,9 +157,9 @@ NOT_APPLICABLE = {
     #'C09': 'not yet under contract in this revision (unit reader planned)',
     #'C10': 'not yet under contract in this revision (units reader/live planned)',
     #'C11': 'not yet under contract in this revision (unit live planned)',
-    'C12': 'not yet under contract in this revision (unit quoting planned)',
+    #'C12': 'not yet under contract in this revision (unit quoting planned)',
     #'C16': 'not yet under contract in this revision (unit location planned)',
     #'C17': 'not yet under contract in this revision (unit snippet planned)',
     'C19': 'not yet under contract in this revision (unit robotics planned)',
-    'C20': 'not yet under contract in this revision (unit quoting planned)',
+    #'C20': 'not yet under contract in this revision (unit quoting planned)',
 }
